@@ -71,6 +71,13 @@ theorem c19_dumpstruct_hex (cls : String) (fields : List DField) (data : Bytes) 
   unfold dumpstruct
   exact Hexdump.C19.c19_colour_cosmetic data _ offset
 
+/-- **Without colour the hex part IS the plain hex dump** (no colour code at all, not even a reset at the end of a row;
+    after fix F72): `dumpstruct(obj, color=False)` shows `hexdump(data, offset=offset)`. -/
+theorem c19_dumpstruct_plain (cls : String) (fields : List DField) (data : Bytes) (offset : Nat) :
+    (dumpstruct cls fields data offset false).hex = Hexdump.hexdump data none offset := by
+  unfold dumpstruct
+  simp
+
 /-- **Every field is listed with its value.** The listing, with colour codes removed, is one line `- name: value` per
     non-anonymous field, in declaration order; the title names the class. Colour therefore changes nothing but the codes. -/
 theorem c19_dumpstruct_listing (cls : String) (fields : List DField) (data : Bytes) (offset : Nat) (color : Bool) :
